@@ -35,7 +35,7 @@ func (t *inProcessTransport) Close() error {
 }
 
 func (t *inProcessTransport) Send(_ context.Context, e envelope) error {
-	if !t.Connected() {
+	if t.isClosed() {
 		return errors.New("transport is closed")
 	}
 	t.remote.envChan <- e
@@ -43,17 +43,35 @@ func (t *inProcessTransport) Send(_ context.Context, e envelope) error {
 }
 
 func (t *inProcessTransport) Receive(ctx context.Context) (envelope, error) {
-	if !t.Connected() {
+	// What the remote party sent before the transport was closed is still delivered,
+	// as with a network connection: the last envelope of a session is the one that ends it.
+	select {
+	case e := <-t.envChan:
+		return e, nil
+	default:
+	}
+	if t.isClosed() {
 		return nil, errors.New("transport is closed")
 	}
 	select {
 	case <-ctx.Done():
 		return nil, fmt.Errorf("receive: %w", ctx.Err())
 	case <-t.done:
+		select {
+		case e := <-t.envChan:
+			return e, nil
+		default:
+		}
 		return nil, errors.New("transport was closed while receiving")
 	case e := <-t.envChan:
 		return e, nil
 	}
+}
+
+func (t *inProcessTransport) isClosed() bool {
+	t.mu.RLock()
+	defer t.mu.RUnlock()
+	return t.closed
 }
 
 func newInProcessTransport(addr InProcessAddr, bufferSize int) *inProcessTransport {
@@ -99,7 +117,8 @@ func (t *inProcessTransport) SetEncryption(context.Context, SessionEncryption) e
 func (t *inProcessTransport) Connected() bool {
 	t.mu.RLock()
 	defer t.mu.RUnlock()
-	return !t.closed
+	// Still connected, for the reader, while envelopes received before the close are pending
+	return !t.closed || len(t.envChan) > 0
 }
 
 func (t *inProcessTransport) LocalAddr() net.Addr {
